@@ -594,6 +594,46 @@ def audit_collapse(n):
 
 
 # ---------------------------------------------------------------------------
+def _long_texts(tier):
+    """(shape, k, padding) -> text; all valid C."""
+    quick = tier == "quick"
+    ks = list(range(1, 40)) + list(range(40, 330, 3 if quick else 1))
+    out = []
+    for k in ks:
+        out.append(("stars", "int " + "* " * k + "x ;"))
+        out.append(("parens", "int " + "( " * k + "x" + " )" * k + " ;"))
+        out.append(("qualified-stars", "int " + "* const " * k + "x ;"))
+        out.append(("param-stars", "void f ( int " + "* " * k + ") ;"))
+        out.append(("param-parens", "void f ( int " + "( " * k + "x" + " )" * k + " ) ;"))
+        out.append(("cast-parens", "int v = " + "( " * k + "1" + " )" * k + " ;"))
+    # a 70 / 130 / 200 token prefix at every offset into the token stream
+    for k in (70, 130, 200, 260):
+        for pad in range(0, 90 if quick else 200):
+            out.append((f"offset{k}", "int a ; " * pad + "int " + "* " * k + "x ;"))
+            if pad % 3 == 0:
+                out.append((f"offset-parens{k}", "int a ; " * pad + "int " + "( " * (k // 2) + "x" + " )" * (k // 2) + " ;"))
+    return out
+
+
+def _long_tasks(tier):
+    return core.chunked(_long_texts(tier), 60)
+
+
+def _work_long(items):
+    n = ok = 0
+    rej = []
+    for shape, text in items:
+        out = outcome(text)
+        n += 1
+        if out[0] == "ok":
+            ok += 1
+        elif out[0] == "rec":
+            ok += 1  # nesting deeper than the recursion limit: tolerated, not a rejection
+        else:
+            rej.append((f"reject:long-lookahead:{shape}", text, "long", out[1]))
+    return n, ok, rej
+
+
 def run(tier):
     global _TABLE
     R = core.Run(PID, tier, "model_checking")
@@ -660,6 +700,17 @@ def run(tier):
                 accepted += 1
             else:
                 rejected.append((signature(text, len(pre), syms), text, "fixed", out[1]))
+
+    # ---- long-lookahead family (lead): valid declarators whose prefix before the
+    # declared name is long, at every offset into the token stream - the
+    # declarator-name lookahead and every mark/reset must work at any distance
+    long_total = 0
+    for cnt, ok, rej in core.pmap(_work_long, _long_tasks(tier), chunksize=1):
+        total += cnt
+        long_total += cnt
+        accepted += ok
+        rejected.extend(rej)
+    R.set("long_lookahead_texts", long_total)
 
     # ---- gcc decides whether a rejected text is the model's fault
     utexts = sorted({r[1] for r in rejected})
